@@ -117,7 +117,9 @@ Inductive dload :=
 | DBadHeader          (* short / invalid signature or version: the C++ unlinks the file and returns
                          LOAD_SUCCESS with empty tables ("starting over") *)
 | DOk (s : dstate)
-      (truncate_to : option nat)   (* Some k: read_failed, the file is truncated to k bytes *)
+      (truncate_to : option nat)   (* Some k: the file is truncated to k bytes: read_failed (then
+                                      needs_recompaction is false), or - current loader only -
+                                      a size word torn at EOF (silent; the flag is computed) *)
       (needs_recompaction : bool)
 | DUnsafe (why : nat) (* the C++ as written has undefined behaviour / aborts here:
                          1 deps record of 4 or 8 bytes: deps_count < 0, new Node*[deps_count]
